@@ -982,6 +982,95 @@ func analyseListRoutine(c *Ctx, fn *ssa.Function) *listRoutine {
 		}
 	}
 	if !boundOK {
+		// count-down form: c starts at the header count, decreases by one per iteration, the loop ends when it reaches 0
+		// and is entered only when the count is not 0
+		for _, b := range fn.Blocks {
+			for _, in := range b.Instrs {
+				cp, ok := in.(*ssa.Phi)
+				if !ok {
+					continue
+				}
+				var dec *ssa.BinOp
+				start := false
+				for _, e := range cp.Edges {
+					if e == hdrN {
+						start = true
+					}
+					if a, ok := e.(*ssa.BinOp); ok && a.Op == token.SUB && a.X == ssa.Value(cp) {
+						if v, ok := constInt(a.Y); ok && v == 1 {
+							dec = a
+						}
+					}
+				}
+				if !start || dec == nil || len(cp.Edges) != 2 {
+					continue
+				}
+				// exit test on the decremented value (bottom-tested) or on the counter (top-tested)
+				tested := false
+				for _, tv := range []ssa.Value{dec, cp} {
+					for _, r := range referrers(tv) {
+						if cmp, ok := r.(*ssa.BinOp); ok && (cmp.Op == token.EQL || cmp.Op == token.NEQ || cmp.Op == token.GTR) {
+							if z, ok := constInt(cmp.Y); ok && z == 0 {
+								for _, rr := range referrers(cmp) {
+									if iff, ok := rr.(*ssa.If); ok {
+										// one successor stays in the loop, the other leaves it
+										in0, in1 := blockReaches(iff.Block().Succs[0], b) || iff.Block().Succs[0] == b, blockReaches(iff.Block().Succs[1], b) || iff.Block().Succs[1] == b
+										stay := in0
+										if cmp.Op == token.EQL {
+											stay = in1
+										}
+										if in0 != in1 && stay {
+											tested = true
+										}
+									}
+								}
+							}
+						}
+					}
+				}
+				entered := holdsAt(b, descInt(hdrN), "!=", "0", descInt) || holdsAt(b, "0", "!=", descInt(hdrN), descInt) || holdsAt(b, "0", "<", descInt(hdrN), descInt)
+				if !entered {
+					// the header is a merge: look at the entry edges (predecessors outside the loop)
+					entered = true
+					nEntry := 0
+					for _, p := range b.Preds {
+						if blockReaches(b, p) {
+							continue // back edge
+						}
+						nEntry++
+						okEdge := holdsAt(p, descInt(hdrN), "!=", "0", descInt) || holdsAt(p, "0", "!=", descInt(hdrN), descInt) || holdsAt(p, "0", "<", descInt(hdrN), descInt)
+						if iff, ok := p.Instrs[len(p.Instrs)-1].(*ssa.If); ok && p.Succs[0] != p.Succs[1] {
+							if l, op, r, ok := relOf(iff.Cond, p.Succs[0] == b, descInt); ok {
+								if (op == "!=" || op == "<") && (l == "0" && r == descInt(hdrN)) || op == "!=" && l == descInt(hdrN) && r == "0" {
+									okEdge = true
+								}
+							}
+						}
+						if !okEdge {
+							entered = false
+						}
+					}
+					if nEntry == 0 {
+						entered = false
+					}
+				}
+				if tested && (entered || cp.Block() != dec.Block() && false) {
+					boundOK = true
+				}
+				if tested && !entered {
+					// top-tested count-down needs no entry guard
+					for _, r := range referrers(cp) {
+						if cmp, ok := r.(*ssa.BinOp); ok && cmp.Block() == b {
+							if z, ok := constInt(cmp.Y); ok && z == 0 {
+								boundOK = true
+							}
+						}
+					}
+				}
+			}
+		}
+	}
+	if !boundOK {
 		bad("loop is not `for i := 0; i < n; i++` over the header count")
 	}
 	// per-element emissions
